@@ -1116,8 +1116,11 @@ class Exec:
                 ys = z3.simplify(y.t)
                 if z3.is_app(ys) and ys.decl().name() == "PObj" and z3.is_int_value(ys.arg(0)):
                     return a.t == b.t     # identity against a unique marker object
-            # identity of two arbitrary objects is not expressible in term view
-            raise Unsupported("`is` between two non-singleton objects (term view)")
+            # identity of two arbitrary objects is not expressible in term view: an unknown that
+            # can only hold when the terms are equal
+            f = self.w.ufun("same_object", self.S.Py, self.S.Py, z3.BoolSort())
+            self.ctx.notes.append("object identity (`is`) abstracted to an uninterpreted predicate")
+            return z3.And(f(a.t, b.t), a.t == b.t)
         if isinstance(a, Ref) or isinstance(b, Ref):
             return z3.BoolVal(False)
         for x, y in ((a, b), (b, a)):
@@ -1423,6 +1426,10 @@ class Exec:
                 raise Unsupported("keyword arguments in a call of a symbolic callable")
             r = Z(self.fresh("call_result", self.S.Py), origin="result of an opaque call")
             self.ctx.ghost_calls.append((f.t, [self.to_py(a) for a in args], r.t))
+            # the protocol the opaque callable is ASSUMED to follow (stated in the contract)
+            for text in self.contract.get("opaque_call_assumes", []):
+                from .contracts import eval_spec_expr
+                self.assume(self.to_bool(eval_spec_expr(self, text, {"call_result": r})))
             return r
         if isinstance(f, Z):
             raise Unsupported("call of a symbolic value")
@@ -1619,6 +1626,20 @@ class Exec:
                 raise RaiseSig("ValueError", line, implicit=True)
             for t, x in zip(target.elts, v.items):
                 self.assign(t, x, env, line)
+            return
+        if isinstance(v, Z) and v.t.sort() == self.S.Py:
+            # unpacking an opaque value (e.g. what a callback returned): it must be a tuple or
+            # list of exactly that many items
+            P, S = self.P, self.S
+            n = len(target.elts)
+            items = z3.If(P.is_PTuple(v.t), P.titems(v.t), P.items(v.t))
+            self.oblige("safety", "TypeError/ValueError:unpack", z3.And(
+                z3.Or(P.is_PTuple(v.t), P.is_PList(v.t)), S.len_l(items) == n), line,
+                note=f"unpacking into {n} targets")
+            cur = items
+            for t_ in target.elts:
+                self.assign(t_, Z(S.head(cur), origin="unpacked item"), env, line)
+                cur = S.tail(cur)
             return
         raise Unsupported(f"unpacking symbolic value (line {line})")
 
